@@ -149,6 +149,19 @@ def run(repo, rep, tier):
                 raise AnalysisError('level appended to %s is neither a literal nor the enumerated level: %s' % (texts_var, unparse(n)))
     rep.check('fold', 'levels appended to the note list are within {fail,warn,info}', lit_levels and lit_levels <= {'fail', 'warn', 'info'}, loop, 'note list may hold a level outside fail/warn/info: %s' % sorted(lit_levels))
 
+    oas = repo.func('ssh_audit', 'output_algorithms')
+    # ---- rule 3: option independence ---------------------------------------------------------------
+    # (runs before the threading rule so that a status that depends on presentation state is reported even when the status is no
+    #  longer threaded through a single variable)
+    from props import _status
+
+    def forbidden(R):
+        return {r for r in R if r in FORBIDDEN_NAMES or any(r == p or r.startswith(p) for p in FORBIDDEN_PREFIXES)}
+    for fname, fnode, R in _status.status_slices(repo, var):
+        bad = forbidden(R)
+        rep.check('independence', 'status slice of %s reads no presentation option' % fname, not bad, fnode, 'status depends on presentation state: %s' % sorted(bad), sample={'rule': 'independence', 'function': fname, 'slice': sorted(R)})
+    outf = repo.func('ssh_audit', 'output')
+
     # ---- rule 2: threading -----------------------------------------------------------------------
     def threading(modname, qual, min_calls, init_must_be_good):
         f = repo.func(modname, qual)
@@ -188,70 +201,44 @@ def run(repo, rep, tier):
         rep.floor('thread', 'fold calls in %s' % qual, ncalls, min_calls)
         return f, v
     threading('ssh_audit', 'output', 7, True)
-    threading('ssh_audit', 'output_algorithms', 1, False)
-    # output_algorithms: the call is made for every element (loop over the list parameter, no break/continue/guard)
+    # output_algorithms, by abstract interpretation (sa/listinterp.py): the per-name renderer is summarised as an opaque fold step
+    # step(name, status) -> fresh status token; for name lists of length 0..3 every path (section empty or not, JSON or not) must return
+    # step(a_n, ... step(a_1, incoming)) -- every name folded exactly once, in order, starting from the incoming status, nothing dropped.
+    from sa.listinterp import Interp
+    from sa.abseval import Opaque, Unknown
     oas = repo.func('ssh_audit', 'output_algorithms')
-    for n in walk_no_nested(oas):
-        if isinstance(n, ast.Call) and call_name(n) == 'output_algorithm':
-            from sa.logic import path_condition
-            pc = path_condition(n)
-            kinds = [k for _, _, k in pc]
-            iters = [unparse(t) for t, _, k in pc if k == 'for']
-            rep.check('thread', 'output_algorithm is called for every element of the list parameter, unconditionally', kinds == ['for'] and iters == ['algorithms'], n,
-                      'per-algorithm fold is conditional or does not iterate the list parameter: %s' % [(unparse(t)[:40], p, k) for t, p, k in pc])
-    for n in walk_no_nested(oas):
-        if isinstance(n, (ast.Break, ast.Continue)):
-            rep.check('thread', 'no break/continue in output_algorithms', False, n, 'loop over algorithms can skip entries')
-
-    # ---- rule 3: option independence ---------------------------------------------------------------
-    def slice_inputs(f, seed):
-        sl = Slice(f)
-        return sl.closure({seed})
-
-    def forbidden(R):
-        bad = set()
-        for r in R:
-            if r in FORBIDDEN_NAMES or any(r == p or r.startswith(p) for p in FORBIDDEN_PREFIXES):
-                bad.add(r)
-        return bad
-    R1 = slice_inputs(oa, var)
-    bad = forbidden(R1)
-    rep.check('independence', 'status slice of output_algorithm reads no presentation option', not bad, oa, 'status depends on presentation state: %s' % sorted(bad), sample={'rule': 'independence', 'function': 'output_algorithm', 'slice': sorted(R1)})
-    params_oa = {a.arg for a in oa.args.args} & R1
-
-    def cu_oas(call):
-        if call_name(call) == 'output_algorithm':
-            b = bind_args(call, oa)
-            u = set()
-            for p, a in b.items():
-                if p in params_oa:
-                    u |= uses(a)
-            return u
-        return None
-    sl2 = Slice(oas, call_uses=cu_oas)
-    rv = returned_name(oas).pop()
-    R2 = sl2.closure({rv})
-    # `with out:` only toggles a section flag (idiom 5, checked in C15); it is not a dependence
-    R2 -= {'out'}
-    bad = forbidden(R2)
-    rep.check('independence', 'status slice of output_algorithms reads no presentation option', not bad, oas, 'status depends on presentation state: %s' % sorted(bad), sample={'rule': 'independence', 'function': 'output_algorithms', 'slice': sorted(R2)})
-    params_oas = {a.arg for a in oas.args.args} & R2
-    outf = repo.func('ssh_audit', 'output')
-
-    def cu_out(call):
-        if call_name(call) == 'output_algorithms':
-            b = bind_args(call, oas)
-            u = set()
-            for p, a in b.items():
-                if p in params_oas:
-                    u |= uses(a)
-            return u
-        return None
-    sl3 = Slice(outf, call_uses=cu_out)
-    R3 = sl3.closure({returned_name(outf).pop()})
-    R3 -= {'out'}
-    bad = forbidden(R3)
-    rep.check('independence', 'status slice of output reads no presentation option', not bad, outf, 'status depends on presentation state: %s' % sorted(bad), sample={'rule': 'independence', 'function': 'output', 'slice': sorted(R3)})
+    rep.saw(oas)
+    oa_params = [x.arg for x in oa.args.args]
+    for names in ([], ['<a1>'], ['<a1>', '<a2>'], ['<a1>', '<a2>', '<a3>']):
+        def hook(call, env, interp):
+            if call_name(call) == 'output_algorithm':
+                b = bind_args(call, oa)
+                try:
+                    nm = interp.value(b['alg_name'], env)
+                    st = interp.value(b[var], env)
+                except (KeyError, Unknown):
+                    raise Unknown('fold call without a computable name / status: %s' % unparse(call)[:80])
+                return (True, ('step', nm, st))
+            return None
+        want = '<incoming>'
+        for nme in names:
+            want = ('step', nme, want)
+        env = {'algorithms': list(names), var: '<incoming>', 'out': Opaque(), 'title': 't', 'alg_type': 'kex', 'unknown_algs': [], 'maxlen': 0, 'host_keys': None, 'dh_modulus_sizes': None, 'alg_db': Opaque()}
+        try:
+            finals = Interp(call_hook=hook).run(oas.body, env)
+        except Unknown as ex:
+            raise AnalysisError('output_algorithms cannot be interpreted: %s' % ex)
+        wrong = None
+        for fe in finals:
+            rep.evals()
+            r = fe.get('<return>')
+            if fe.get('<outcome>') != 'return' or isinstance(r, Opaque):
+                raise AnalysisError('output_algorithms: returned status not computable (forks %s)' % fe.get('<forks>'))
+            if r != want and wrong is None:
+                wrong = (r, fe.get('<forks>', []))
+        rep.check('thread', 'output_algorithms folds every name once, in order, from the incoming status (%d names, %d paths)' % (len(names), len(finals)), wrong is None, oas,
+                  'status threading broken in output_algorithms: for the names %s it returns %s instead of %s%s' % (names, wrong[0] if wrong else '', want, (' when %s' % ' / '.join(wrong[1][:2])) if wrong and wrong[1] else ''),
+                  stmt='output_algorithms fold over %d names' % len(names), sample={'rule': 'thread', 'names': len(names), 'paths': len(finals)})
 
     # ---- rule 4: incomplete => CONNECTION_ERROR, no report -----------------------------------------
     au = repo.func('ssh_audit', 'audit')
